@@ -364,6 +364,38 @@ fn jumps_into_immediates() -> Vec<Vec<u8>> {
     raws
 }
 
+/// Containers that list byte-identical sub-containers and use them in both roles (EOFCREATE target =
+/// init code, RETURNCONTRACT target = deployed code), in both orders and through one shared index; the
+/// shared bytes range over code that is legal in neither / one / the other role, with complete and
+/// truncated data.
+fn same_subcontainer_two_roles() -> Vec<Vec<u8>> {
+    let neutral = |data: Vec<u8>, hdr: u16| {
+        let mut c = Cont::simple(vec![0xfe], 0);
+        c.data = data;
+        c.data_hdr = hdr;
+        c.raw()
+    };
+    let subs: Vec<Vec<u8>> = vec![neutral(vec![], 0), neutral(vec![0x01], 4), neutral(vec![0x01; 4], 4), sub_runtime(), sub_init(), sub_init_truncated()];
+    let mut raws = vec![];
+    for x in &subs {
+        for (create_idx, ret_idx, n) in [(0u8, 1u8, 2usize), (1, 0, 2), (0, 0, 1)] {
+            // init container: EOFCREATE[create_idx]; POP; RETURNCONTRACT[ret_idx]
+            let mut c = Cont::simple(vec![0x5f, 0x5f, 0x5f, 0x5f, 0xec, create_idx, 0x50, 0x5f, 0x5f, 0xee, ret_idx], 4);
+            c.containers = vec![x.clone(); n];
+            raws.push(c.raw());
+            // RETURNCONTRACT first in the byte order (a conditional jump decides at run time)
+            let mut c = Cont::simple(vec![0x5f, 0xe1, 0x00, 0x04, 0x5f, 0x5f, 0xee, ret_idx, 0x5f, 0x5f, 0x5f, 0x5f, 0xec, create_idx, 0x50, 0x5f, 0x5f, 0xee, ret_idx], 4);
+            c.containers = vec![x.clone(); n];
+            raws.push(c.raw());
+        }
+        // runtime container creating from two identical sub-containers
+        let mut c = Cont::simple(vec![0x5f, 0x5f, 0x5f, 0x5f, 0xec, 0x00, 0x50, 0x5f, 0x5f, 0x5f, 0x5f, 0xec, 0x01, 0x50, 0x00], 4);
+        c.containers = vec![x.clone(), x.clone()];
+        raws.push(c.raw());
+    }
+    raws
+}
+
 /// number of immediate bytes of the EOF instruction at `i` (independent table: EIP-3540 family)
 fn imm_len(code: &[u8], i: usize) -> usize {
     match code[i] {
@@ -535,7 +567,7 @@ fn run_job(j: &Job, evm: &mut Runner, out: &mut Out, execute: bool) {
         }
         Job::Exact { raws } => {
             for r in raws {
-                out.acc.bump("jump_into_immediate_containers", 1);
+                out.acc.bump("explicit_family_containers", 1);
                 check_raw(r, evm, out, execute);
             }
         }
@@ -635,6 +667,7 @@ fn jobs(tier: Tier) -> Vec<Job> {
         v.push(Job::Mutate { base: b });
     }
     v.push(Job::Exact { raws: jumps_into_immediates() });
+    v.push(Job::Exact { raws: same_subcontainer_two_roles() });
     v.push(Job::Raw { first: None });
     for f in 0..=255u8 {
         v.push(Job::Raw { first: Some(f) });
@@ -692,7 +725,7 @@ pub fn run(ctx: &Ctx) -> i32 {
     let mut acc = o.acc;
     acc.bump("executions_of_accepted_containers", o.exec.evaluations);
     let meta = Meta {
-        rule: format!("containers encoded by an independent EIP-3540 encoder: one code section with every instruction sequence of depth <= {} over a {}-instruction EOF alphabet (RJUMP/RJUMPI offsets -4..3, RJUMPV, CALLF/JUMPF 0..2, DUPN/SWAPN/EXCHANGE, DATALOADN 0/1/32/65535, EOFCREATE/RETURNCONTRACT 0..1, EXT*CALL, disabled opcodes, truncated immediates) x max_stack 0..=4 x {{no, runtime, init}} sub-container; depth <= 2 bodies x 4 data shapes (incl. truncated) x 5 sub-container lists; 2-section containers (depth <= 2 x depth <= {} over 14 instructions x 6 type signatures x max_stack products) and 3-section containers; every single-byte substitution from 10 values at every position, every truncation and one appended byte of 6+ well-formed containers; for each of 13 immediate-carrying instructions and each of its immediate bytes, bodies whose RJUMPI (forward, backward) or one-entry RJUMPV targets that byte; every byte string of length <= 2 and every ef-prefixed string of length 3; distinct = distinct (verdict class, length) and (execution outcome, steps, gas)", ctx.tier.pick(3, 4), alphabet().len(), ctx.tier.pick(2, 3)),
+        rule: format!("containers encoded by an independent EIP-3540 encoder: one code section with every instruction sequence of depth <= {} over a {}-instruction EOF alphabet (RJUMP/RJUMPI offsets -4..3, RJUMPV, CALLF/JUMPF 0..2, DUPN/SWAPN/EXCHANGE, DATALOADN 0/1/32/65535, EOFCREATE/RETURNCONTRACT 0..1, EXT*CALL, disabled opcodes, truncated immediates) x max_stack 0..=4 x {{no, runtime, init}} sub-container; depth <= 2 bodies x 4 data shapes (incl. truncated) x 5 sub-container lists; 2-section containers (depth <= 2 x depth <= {} over 14 instructions x 6 type signatures x max_stack products) and 3-section containers; every single-byte substitution from 10 values at every position, every truncation and one appended byte of 6+ well-formed containers; for each of 13 immediate-carrying instructions and each of its immediate bytes, bodies whose RJUMPI (forward, backward) or one-entry RJUMPV targets that byte; containers listing byte-identical sub-containers (6 kinds, complete and truncated data) used as EOFCREATE and RETURNCONTRACT target in both orders; every byte string of length <= 2 and every ef-prefixed string of length 3; distinct = distinct (verdict class, length) and (execution outcome, steps, gas)", ctx.tier.pick(3, 4), alphabet().len(), ctx.tier.pick(2, 3)),
         assumptions: vec![
             "validation is run in both modes (runtime: first section may STOP/RETURN; initcode: must RETURNCONTRACT); a container accepted as runtime code is executed as deployed code, one accepted as initcode is executed as a creation transaction, under OSAKA".into(),
             "execution oracle = C25's: no panic (debug assertions on), instruction pointer inside the current code section after every step, defined result, gas_used <= gas_limit; plus: every pc the outermost frame executes is an instruction start of its code section according to an independent linear sweep (immediate sizes from EIP-3540/4200/4750/663/7480/7620)".into(),
